@@ -10,6 +10,7 @@ import TsV.Model.Generate
 import TsV.Model.Writer
 import TsV.Model.Config
 import TsV.Model.Annotation
+import TsV.Lemmas.C15_Driver
 /-!
 # `tsmodel`: one s-expression request per line in, one JSON answer per line out.
 The driver only decodes, calls the model's executable definitions and prints.
@@ -286,6 +287,8 @@ def handle (st : DriverState) (req : Sx) : DriverState × J :=
         | some r => .obj [("ok", J.ofNats r)]
         | none => .obj [("panic", .str "sort_by_indices".toList)]
       | _, _ => bad "sortidx")
+  | .list (.atom "c15" :: _) | .list (.atom "c15-mask" :: _) =>
+    (st, (C15.request st.U req).getD (bad "c15"))
   | _ => (st, bad "unknown-request")
 
 partial def loop (h : IO.FS.Stream) (out : IO.FS.Stream) (st : DriverState) : IO Unit := do
